@@ -1247,6 +1247,10 @@ class Interp(object):
         for op, rn in zip(e.ops, e.comparators):
             right = self.eval(rn, fr)
             r = self.cmp1(op, left, right, e)
+            if not isinstance(r, (Cond, bool)) and hasattr(r, 'shape'):
+                if len(e.ops) != 1:
+                    raise CheckerError('line %d: chained comparison of arrays' % e.lineno)
+                return r
             if isinstance(r, Cond):
                 if result is True:
                     result = r
@@ -1286,6 +1290,11 @@ class Interp(object):
             r = self.cmp1(ast.In(), a, b, node)
             return r.neg() if isinstance(r, Cond) else (not r)
         sym = {'Eq': '==', 'NotEq': '!=', 'Lt': '<', 'LtE': '<=', 'Gt': '>', 'GtE': '>='}[name]
+        if hasattr(a, 'sym_compare'):
+            return a.sym_compare(self, sym, b)
+        if hasattr(b, 'sym_compare'):
+            flip = {'==': '==', '!=': '!=', '<': '>', '<=': '>=', '>': '<', '>=': '<='}[sym]
+            return b.sym_compare(self, flip, a)
         if a.__class__.__name__ == 'LenOf':
             ne = a.gl.nonempty
             if (sym, b) in (('>', 0), ('>=', 1), ('!=', 0)):
@@ -1440,7 +1449,11 @@ class Interp(object):
 
     def sym_floordiv(self, a, b, node):
         if isinstance(a, P) and is_int_valued(a) and isinstance(b, int) and b > 0:
-            return integer('floordiv(%s,%d)' % (normal(a).text(), b))
+            q = integer('floordiv(%s,%d)' % (normal(a).text(), b))
+            if self.path is not None:
+                qz, az = to_z3(q), to_z3(a)
+                self.path.conds.append(Cond('z3', z3.And(b * qz <= az, az < b * qz + b)))
+            return q
         raise CheckerError('line %d: symbolic floor division needs a contract' % node.lineno)
 
     def sym_mod(self, a, b, node):
